@@ -722,6 +722,8 @@ class Num(object):
             fl = z3.ToInt(h)
             tie = z3.ToReal(fl) == h
             r = Num('q', z3.If(z3.And(tie, fl % 2 != 0), fl - 1, fl), 1, ty=int)
+        if CUR is not None:
+            CUR.memo.setdefault('rounds', []).append((r.n, x))      # (rounded integer term, its argument)
         if nd is None:
             return r
         res = r * Num.const(Fr(1) / scale) if scale != 1 else r
